@@ -36,6 +36,10 @@ func main() {
 		typed(root, enc)
 		return
 	}
+	if len(os.Args) > 2 && os.Args[2] == "guard" {
+		guard(root, enc)
+		return
+	}
 	filepath.Walk(root, func(path string, info os.FileInfo, err error) error {
 		if err != nil {
 			return nil
@@ -383,4 +387,162 @@ func isParam(fd *ast.FuncDecl, pk *packages.Package, o *types.Var) bool {
 		}
 	}
 	return false
+}
+
+// guard: additive mutants. A new early exit is inserted at the start of a function body
+// (`if <rarely true test of a parameter> { return <zero values, or a like-typed parameter> }`) or at the
+// start of a range body (`if <test of the element> { continue }`): the shape of a "fast path" or
+// "defensive guard" that decides a question the surrounding code already decides.
+func guard(root string, enc *json.Encoder) {
+	cfg := &packages.Config{Mode: packages.NeedName | packages.NeedFiles | packages.NeedSyntax | packages.NeedTypes | packages.NeedTypesInfo, Dir: root, Tests: false,
+		Env: append(os.Environ(), "GOFLAGS=-mod=mod", "GOPROXY=off", "GOSUMDB=off", "GOTOOLCHAIN=local", "GOWORK=off")}
+	pkgs, err := packages.Load(cfg, "./...")
+	if err != nil {
+		fmt.Fprintln(os.Stderr, err)
+		os.Exit(2)
+	}
+	for _, pk := range pkgs {
+		if strings.HasSuffix(pk.PkgPath, "test") || strings.Contains(pk.PkgPath, "dot") {
+			continue
+		}
+		qual := func(p *types.Package) string {
+			if p == pk.Types {
+				return ""
+			}
+			return p.Name()
+		}
+		for _, f := range pk.Syntax {
+			path := pk.Fset.Position(f.Pos()).Filename
+			if strings.HasSuffix(path, "_test.go") || strings.HasSuffix(path, "doc.go") {
+				continue
+			}
+			rel, _ := filepath.Rel(root, path)
+			off := func(p token.Pos) int { return pk.Fset.Position(p).Offset }
+			hasStrings := false
+			for _, im := range f.Imports {
+				if im.Path.Value == `"strings"` && im.Name == nil {
+					hasStrings = true
+				}
+			}
+			conds := func(name string, t types.Type) []string {
+				switch u := t.Underlying().(type) {
+				case *types.Basic:
+					switch {
+					case u.Info()&types.IsString != 0:
+						out := []string{"len(" + name + ") > 8", name + ` == "-"`}
+						if hasStrings {
+							out = append(out, "strings.HasPrefix("+name+`, "--no-")`)
+						}
+						return out
+					case u.Info()&types.IsInteger != 0:
+						return []string{name + " > 3"}
+					}
+				case *types.Slice:
+					return []string{"len(" + name + ") > 4", "len(" + name + ") == 1"}
+				case *types.Map:
+					return []string{"len(" + name + ") > 4"}
+				}
+				return nil
+			}
+			for _, d := range f.Decls {
+				fd, ok := d.(*ast.FuncDecl)
+				if !ok || fd.Body == nil {
+					continue
+				}
+				type prm struct {
+					name string
+					t    types.Type
+				}
+				var params []prm
+				if fd.Type.Params != nil {
+					for _, fl := range fd.Type.Params.List {
+						for _, nm := range fl.Names {
+							if nm.Name != "_" {
+								if o := pk.TypesInfo.Defs[nm]; o != nil {
+									params = append(params, prm{nm.Name, o.Type()})
+								}
+							}
+						}
+					}
+				}
+				// return statements to try
+				var rets []string
+				sig := pk.TypesInfo.Defs[fd.Name].Type().(*types.Signature)
+				if sig.Results().Len() == 0 {
+					rets = []string{"return"}
+				} else {
+					for _, bv := range []string{"false", "true"} {
+						var parts []string
+						okAll, hasBool := true, false
+						for i := 0; i < sig.Results().Len(); i++ {
+							rt := sig.Results().At(i).Type()
+							like := ""
+							for _, p := range params {
+								if types.Identical(p.t, rt) {
+									like = p.name
+								}
+							}
+							switch u := rt.Underlying().(type) {
+							case *types.Basic:
+								switch {
+								case u.Info()&types.IsBoolean != 0:
+									parts = append(parts, bv)
+									hasBool = true
+								case u.Info()&types.IsString != 0:
+									parts = append(parts, `""`)
+								case u.Info()&types.IsNumeric != 0:
+									parts = append(parts, "0")
+								default:
+									okAll = false
+								}
+							case *types.Slice, *types.Map, *types.Pointer, *types.Interface, *types.Signature:
+								if like != "" {
+									parts = append(parts, like)
+								} else {
+									parts = append(parts, "nil")
+								}
+							case *types.Struct:
+								parts = append(parts, types.TypeString(rt, qual)+"{}")
+							default:
+								okAll = false
+							}
+						}
+						if okAll && (bv == "false" || hasBool) {
+							rets = append(rets, "return "+strings.Join(parts, ", "))
+						}
+					}
+				}
+				at := off(fd.Body.Lbrace) + 1
+				line := pk.Fset.Position(fd.Body.Lbrace).Line
+				for _, p := range params {
+					for _, cnd := range conds(p.name, p.t) {
+						for _, r := range rets {
+							enc.Encode(mutant{rel, at, at, "\n\tif " + cnd + " {\n\t\t" + r + "\n\t}", "early exit in " + fd.Name.Name + ": if " + cnd + " { " + r + " }", line})
+						}
+					}
+				}
+				ast.Inspect(fd.Body, func(n ast.Node) bool {
+					rs, ok := n.(*ast.RangeStmt)
+					if !ok {
+						return true
+					}
+					for _, e := range []ast.Expr{rs.Key, rs.Value} {
+						id, isId := e.(*ast.Ident)
+						if !isId || id.Name == "_" {
+							continue
+						}
+						o := pk.TypesInfo.Defs[id]
+						if o == nil {
+							continue
+						}
+						a := off(rs.Body.Lbrace) + 1
+						for _, cnd := range conds(id.Name, o.Type()) {
+							enc.Encode(mutant{rel, a, a, "\n\tif " + cnd + " {\n\t\tcontinue\n\t}", "skip in loop of " + fd.Name.Name + ": if " + cnd + " { continue }", pk.Fset.Position(rs.Body.Lbrace).Line})
+						}
+					}
+					return true
+				})
+			}
+		}
+	}
 }
